@@ -1428,6 +1428,11 @@ pub enum Disp {
     BatchTwo,
     /// collect max(2, n/3) deliveries, then accept_all
     BatchThird,
+    /// the application only receives: it never calls accept / dispose.  Used with PRE-SETTLED streams only, where
+    /// there is nothing to dispose of: a delivery handed to the application has been handled (the quantifier's
+    /// disposal order "never"; with unsettled deliveries, not re-issuing credit is the receiver's right - they are
+    /// still being handled - and only the safety clauses are judged there)
+    NeverPreSettled,
 }
 pub const DISPS: [Disp; 7] = [Disp::Each, Disp::EachDisposer, Disp::BatchFull, Disp::BatchHalf, Disp::PairsReversed, Disp::BatchTwo, Disp::BatchThird];
 
@@ -1491,6 +1496,7 @@ pub async fn stream(cfg: Cfg, disp: Disp, style: SenderStyle, total: usize) -> S
         Disp::BatchHalf => (n as usize).div_ceil(2),
         Disp::PairsReversed | Disp::BatchTwo => 2,
         Disp::BatchThird => (n as usize / 3).max(2),
+        Disp::NeverPreSettled => usize::MAX,
     }
     .max(1);
     let (frames, settled) = match style {
@@ -1501,7 +1507,7 @@ pub async fn stream(cfg: Cfg, disp: Disp, style: SenderStyle, total: usize) -> S
     let mut rounds = 0usize;
     loop {
         rounds += 1;
-        if h.mon.handed >= total && h.undisposed.is_empty() {
+        if h.mon.handed >= total && (h.undisposed.is_empty() || disp == Disp::NeverPreSettled) {
             break;
         }
         if rounds > 20 * total + 50 {
@@ -1562,7 +1568,7 @@ pub async fn stream(cfg: Cfg, disp: Disp, style: SenderStyle, total: usize) -> S
         if !progress {
             // nothing to send, nothing to receive: an application that keeps disposing now disposes of
             // whatever it still holds (a partial batch) before anybody may call it a stall
-            if !h.undisposed.is_empty() {
+            if !h.undisposed.is_empty() && disp != Disp::NeverPreSettled {
                 h.note("  [app] flushes its partial batch".into());
                 dispose(&mut h, disp).await;
                 continue;
@@ -1570,7 +1576,7 @@ pub async fn stream(cfg: Cfg, disp: Disp, style: SenderStyle, total: usize) -> S
             h.mon.cnt.stall_checks += 1;
             let last = h.mon.rflows.last().unwrap().clone();
             h.mon.fail(
-                "c3 auto-credit-stall",
+                if disp == Disp::NeverPreSettled { "c3 auto-credit-stall (pre-settled stream, nothing to dispose of)" } else { "c3 auto-credit-stall" },
                 format!(
                     "Auto({n}), {:?}, {:?}: after {} of {total} deliveries the application has received and disposed of everything, the sender has \
                      no credit (sender delivery-count {}, last receiver flow delivery-count {} credit {}): the stream stalls",
@@ -1630,6 +1636,7 @@ async fn dispose_with(h: &mut Harness, disp: Disp, cause: Cause) {
             }
             h.quiesce(cause).await;
         }
+        Disp::NeverPreSettled => {}
         Disp::PairsReversed => {
             for _ in 0..n {
                 let last = h.undisposed.len() - 1;
@@ -2307,6 +2314,7 @@ pub fn run(ctx: &Ctx) -> Outcome {
                         items.push((Cfg { side, policy: Policy::Auto(n), idc }, d, s, (5 * n + 3) as usize));
                     }
                 }
+                items.push((Cfg { side, policy: Policy::Auto(n), idc }, Disp::NeverPreSettled, SenderStyle::BurstSettled, (5 * n + 3) as usize));
             }
         }
     }
